@@ -312,7 +312,7 @@ def random_plans(ctx, examples, shard, plans_per_traffic):
             case = {"kind": "plan", "direction": direction, "draws": draws, "plan": [[p[0], p[1], p[2]] if p[0] != "dgram" else ["dgram", p[1]] for p in plan]}
             ctx.case((thash, tuple((p[0], len(p[1])) for p in plan)), nontrivial=nt, classes=["plan"])
             check_plan(ctx, traffic, plan, ref_norm, case, nt)
-            if ctx.evaluations % 400 == 0:
+            if ctx.want_sample():
                 ctx.sample({"direction": direction, "plan": plan_desc(plan)})
 
     run_hypothesis(ctx, body, st.data(), examples, shard=shard)
@@ -370,7 +370,7 @@ def exhaustive_short(ctx, part, nparts):
                         ctx.violation("valid-traffic-closed-connection", "plan closed the connection with %r" % (q.closed,), case)
                     elif got != ref:
                         ctx.violation("events-depend-on-chunking", "plan gives %r, whole delivery gives %r" % (got, ref), case)
-                    if n % 5003 == 0:
+                    if ctx.want_sample():
                         ctx.sample({"role": role, "chunks": [len(p[1]) for p in plan], "lone_fin": lone_fin})
     ctx.extra["exhaustive"] = True
 
